@@ -3,6 +3,7 @@ import Req.Client.Decode
 import Req.Client.DecodeSettings
 import Req.Client.RespHeader
 import Req.Client.Sniff
+import Req.Client.PrefixCode
 /-!
 Driver lanes of C15.
 
@@ -37,6 +38,11 @@ the `<tbl>` argument: `in=out;in=out…`, hex, sent by the harness from x/text).
   encoding whose decoder is applied.
 * `c15label <label>` — `htmlcharset.Lookup(label)`: canonical name (hex) or `none`; `c15labels` — the
   `,`-joined hex list of all labels of the model's table.
+* `c15mb <singles> <pairs> <chunks>` — the generic double-byte prefix code (`dbcsCode`) over tables stated by the
+  harness from x/text on 1- and 2-byte strings: `singles` = `;`-joined `<byte hex>=<out hex>` (a byte not listed
+  is a lead byte), `pairs` = `;`-joined `<2 bytes hex>=<out hex>/<1|2>` (bytes consumed).  Answer as `c15dec`.
+* `c15gbk <gbk|gb18030> <pairs> <fours> <chunks>` — GBK / GB18030 with the byte ranges of the MODEL; `pairs` =
+  `<2 bytes hex>=<code point, 0 = unmapped>`, `fours` = `<4 bytes hex>=<out hex>/<1|4>`.  Answer as `c15dec`.
 * `c15legacy …same… <dirty>` — the pinned tree's `peekRead`; buffers are pre-filled with the
   `dirty` pattern repeated.
 * `c15drain <peek|nil> <decid> <tbl> <segs> <term> <lwt> <bufs> <tail>` — `Read` from a state
@@ -130,6 +136,53 @@ def laneLabel : List String → String
   | _ => "bad-op"
 
 def laneLabels (_ : List String) : String := encodeList (Req.Labels.whatwg.map Prod.fst)
+
+def parseKV (s : String) : Option (List (Bytes × String)) :=
+  if s == "-" then some [] else
+  (s.splitOn ";").mapM fun e =>
+    match e.splitOn "=" with
+    | [a, b] => (decodeHex a).map fun x => (x, b)
+    | _ => none
+
+def showDec (d : D) (chunks : List Bytes) : String :=
+  let f := d.feedAll d.init chunks
+  encodeHex (d.decodeAll chunks.flatten) ++ " " ++ encodeHex (f.2 ++ d.flush f.1)
+
+def laneMb : List String → String
+  | [singles, pairs, chunks] =>
+    let r : Option String := do
+      let singles ← parseKV singles
+      let singles ← singles.mapM fun (k, v) => (decodeHex v).map fun o => (k, o)
+      let pairs ← parseKV pairs
+      let pairs ← pairs.mapM fun (k, v) =>
+        match v.splitOn "/" with
+        | [o, n] => (decodeHex o).map fun o => (k, (o, n == "2"))
+        | _ => none
+      let chunks ← decodeList chunks
+      let single := fun (b : UInt8) => singles.lookup [b]
+      let pair := fun (a b : UInt8) => (pairs.lookup [a, b]).getD (unknownInput, true)
+      pure (showDec (ofCode (dbcsCode single pair)) chunks)
+    r.getD "bad-op"
+  | _ => "bad-op"
+
+def laneGbk : List String → String
+  | [kind, pairs, fours, chunks] =>
+    let r : Option String := do
+      let pairs ← parseKV pairs
+      let pairs ← pairs.mapM fun (k, v) => v.toNat?.map fun n => (k, n)
+      let fours ← parseKV fours
+      let fours ← fours.mapM fun (k, v) =>
+        match v.splitOn "/" with
+        | [o, n] => (decodeHex o).map fun o => (k, (o, n == "4"))
+        | _ => none
+      let chunks ← decodeList chunks
+      let tbl := fun (a b : UInt8) => (pairs.lookup [a, b]).getD 0x21   -- '!' marks a pair the harness did not state
+      let four := fun (a b c d : UInt8) => (fours.lookup [a, b, c, d]).getD (unknownInput, true)
+      if kind == "gbk" then pure (showDec (ofCode (gbkCode tbl)) chunks)
+      else if kind == "gb18030" then pure (showDec (ofCode (gb18030Code tbl four)) chunks)
+      else none
+    r.getD "bad-op"
+  | _ => "bad-op"
 
 def parseFilter (s : String) : Option (Option (Bytes → Bool)) :=
   if s == "default" then some none
@@ -408,6 +461,8 @@ def lanes : List (String × (List String → String)) := [
   ("c15cfg", laneCfg),
   ("c15hdrs", laneHdrs),
   ("c15findc", laneFindC),
+  ("c15mb", laneMb),
+  ("c15gbk", laneGbk),
   ("c15label", laneLabel),
   ("c15labels", laneLabels),
   ("c15legacy", laneLegacy),
